@@ -605,7 +605,10 @@ def main(run):
     run.assumptions += ["immutable values (numbers, strings, tuples of those, GP nodes) are atoms; GP nodes are shared by design",
                         "no per-instance attribute created by the class was deleted from the instance",
                         "attributes stored on the fitness object itself (other than values, constraint_violation) are outside the statement"]
+    import time as _time
+    t_start = _time.time()
     run.build_props()
+    t_built = _time.time()
     if run.broken and not any("C16" in w for b in run.broken for w in b.get("where", [])):
         # the shared build tripped over another property's file (several checks build concurrently): once more
         import time
@@ -787,17 +790,19 @@ def main(run):
                     return
 
     # ---------------- scenarios ----------------
-    def scenario(idx):
+    def scenario(idx, force=None):
+        """force (the exhaustive grid): {"base": 0..7, "nobj": 1..3, "valid": bool, "proto": 0..5, "cycle": bool}"""
+        force = force or {}
         bases = [(list, 1, None), (array.array, 2, "b"), (array.array, 2, "i"), (array.array, 2, "d"),
                  (numpy.ndarray, 3, None), (set, 4, None), (dict, 5, None), (gp.PrimitiveTree, 6, None)]
-        pybase, code, tc = bases[idx % len(bases)]
+        pybase, code, tc = bases[force.get("base", idx) % len(bases)]
         fresh_box[0] = itertools.count(200)
         # fitness classes
         fits = []
         for _ in range(rng.choice([1, 1, 2])):
             nm = new_name()
             fb = base.ConstrainedFitness if rng.random() < 0.25 else base.Fitness
-            kw = {"weights": rng.choice(WEIGHTS)}
+            kw = {"weights": rng.choice([w for w in WEIGHTS if "nobj" not in force or len(w) == force["nobj"]])}
             if rng.random() < 0.15:
                 kw["x20"] = build(mk_nested(1))
             creator.create(nm, fb, **kw)
@@ -815,7 +820,7 @@ def main(run):
                 creator.create(nm, list, **kw)
             strat_cls = getattr(creator, nm)
         dct = {}
-        if rng.random() < 0.9:
+        if rng.random() < 0.9 or force:
             dct["fitness"] = rng.choice(fits)
         r = rng.random()
         if r < 0.5:
@@ -835,7 +840,7 @@ def main(run):
         nm = new_name()
         creator.create(nm, pybase, **dct)
         icls = getattr(creator, nm)
-        case = {"kind": "run", "base": KNAMES[code], "typecode": tc, "class": nm,
+        case = {"kind": "run", "base": KNAMES[code], "typecode": tc, "class": nm, "grid": force or None,
                 "dct": sorted((k, getattr(v, "__name__", repr(v))) for k, v in dct.items())}
         # initial instances
         roots = []
@@ -845,7 +850,7 @@ def main(run):
         setup = []
         for ind in roots:
             f = getattr(ind, "fitness", None)
-            if isinstance(f, base.Fitness) and rng.random() < 0.7:
+            if isinstance(f, base.Fitness) and force.get("valid", rng.random() < 0.7):
                 f.values = tuple(rng.randint(-20, 20) / 4.0 for _ in f.weights)
                 setup.append("valid")
             if isinstance(f, base.ConstrainedFitness) and rng.random() < 0.5:
@@ -869,7 +874,7 @@ def main(run):
                 ind.x10 = rng.choice(fits)                             # a class as attribute value
             if rng.random() < 0.15 and strat_cls is not None:
                 ind.x11 = strat_cls([0.5] if base_code(strat_cls) == 2 else [1, 2])
-            if rng.random() < 0.15:
+            if force.get("cycle", rng.random() < 0.3):
                 if rng.random() < 0.5:
                     ind.x12 = ind                                      # cycle through the individual
                 else:
@@ -921,7 +926,7 @@ def main(run):
                 nontrivial = nontrivial or len(inst_mutables(c)) > 1
             elif r < 0.65:
                 i = rng.randrange(len(roots))
-                proto = rng.randint(0, 5)
+                proto = force.get("proto", rng.randint(0, 5))
                 before = snapshot(roots[i])
                 try:
                     blob = pickle.dumps(roots[i], proto)
@@ -970,9 +975,20 @@ def main(run):
                 apply_mutation(o, kind_of(o), m)
                 op = ("mut", k, m)
             ops_log.append([op[0]] + [list(x) if isinstance(x, tuple) else x for x in op[1:]])
-            d = describe(roots)
-            steps.append("S_ %s %s" % (cop(op), cdesc(d)))
+            steps.append((op, describe(roots)))
         case["ops"] = ops_log
+        prev = h0
+        out = []
+        for j, (op, d) in enumerate(steps):
+            if op[0] == "mut" and j != len(steps) - 1:
+                out.append("S0 %s" % cop(op))
+                continue
+            po, no = prev[0], d[0]
+            changes = [(i, no[i]) for i in range(min(len(po), len(no))) if po[i] != no[i]]
+            out.append("Sd %s %d [%s] [%s] [%s]" % (cop(op), len(no), ";".join("C %d (%s)" % (i, cobj(o)) for i, o in changes),
+                                                  ";\n  ".join(cobj(o) for o in no[len(po):]), ";".join(cval(v) for v in d[1])))
+            prev = d
+        steps = out
         terms.append("CRun %s %s [%s] [%s]" % ("false" if "fitness-attr" in setup else "true",
                                                 "[%s]" % ";\n  ".join(cobj(o) for o in h0[0]),
                                              ";".join(cval(v) for v in h0[1]), ";\n ".join(steps)))
@@ -992,10 +1008,16 @@ def main(run):
                     continue
                 oracle_copy(dict(case, op=["pickle-all", proto]), "pickle protocol %d" % proto, x, c, proto)
 
-    nscen = run.scale(160, 1600)
-    for idx in range(nscen):
+    # exhaustive grid: every base type / typecode x every pickle protocol x 1..3 objectives x valid / invalid fitness
+    # (x with / without a reference cycle through the individual in the thorough tier)
+    grid = [dict(base=b, nobj=n, valid=v, proto=p, cycle=c)
+            for b in range(8) for p in range(6) for n in (1, 2, 3) for v in (True, False)
+            for c in ((False, True) if run.thorough else ((b + p + n + v) % 2 == 0,))]
+    nscen = run.scale(100, 1600)
+    jobs = [(i, None) for i in range(nscen)] + [(i, g) for i, g in enumerate(grid)]
+    for idx, g in jobs:
         try:
-            scenario(idx)
+            scenario(idx, g)
         except Exception as e:  # noqa
             import traceback
             run.oracle_violation("scenario raised %s: %s" % (type(e).__name__, e), {"kind": "run", "index": idx},
@@ -1150,7 +1172,9 @@ def main(run):
             d0 = exp["desc"]
             dg = (got["objs"], [tuple(v) for v in got["roots"]])
             objs = [[o[0], tuple(o[1]), [tuple(v) for v in o[2]], [(a[0], tuple(a[1])) for a in o[3]]] for o in dg[0]]
-            terms.append("CFresh [%s] %s %s" % (";\n  ".join(cobj(o) for o in d0[0]), cval(d0[1][0]), cdesc((objs, dg[1]))))
+            same = (objs == [list(o) for o in d0[0]] or objs == d0[0]) and list(dg[1]) == list(d0[1])
+            terms.append("CFresh [%s] %s %s" % (";\n  ".join(cobj(o) for o in d0[0]), cval(d0[1][0]),
+                                                "None" if same else "(Some %s)" % cdesc((objs, dg[1]))))
             cases.append(c)
             run.note_case(c, True)
         for f in (inp, outp):
@@ -1160,7 +1184,10 @@ def main(run):
                 pass
     run.extra_cov["fresh_interpreter_loads"] = nfresh
     before = len(run.disagreements)
+    t_gen = _time.time()
     run.correspond("all", "C16", terms, cases, shard=60)
+    run.extra_cov["timing_s"] = {"build": round(t_built - t_start, 1), "run_deap_and_oracle": round(t_gen - t_built, 1),
+                                 "coq_correspondence": round(_time.time() - t_gen, 1)}
     if any(d.get("coq_error") for d in run.disagreements[before:]):
         # a coqc process died without a verdict (killed under memory pressure when many checks run at once):
         # evaluate everything again, four shards at a time; a second failure is reported
